@@ -1535,9 +1535,19 @@ func (e *Enc) binop(x *ssa.BinOp) {
 	case token.OR:
 		e.bitop(x, "bitor", a, b, t)
 	case token.XOR:
-		e.bitop(x, "bitxor", a, b, t)
+		if c, ok := isConstInt(x.Y); ok && c > 0 && isPow2(c) && !signed && uint(c) < (uint(1)<<(bits-1))*2 {
+			// toggling a single bit: x ^ 2^k = x + 2^k - 2*2^k*bit_k(x)
+			e.define(x, app("-", app("+", a.T, ilit(c)), app("*", ilit(2*c), app("mod", app("div", a.T, ilit(c)), "2"))))
+		} else {
+			e.bitop(x, "bitxor", a, b, t)
+		}
 	case token.AND_NOT:
-		e.bitop(x, "bitandnot", a, b, t)
+		if c, ok := isConstInt(x.Y); ok && c > 0 && isPow2(c) && !signed {
+			// clearing a single bit: x &^ 2^k = x - 2^k*bit_k(x)
+			e.define(x, app("-", a.T, app("*", ilit(c), app("mod", app("div", a.T, ilit(c)), "2"))))
+		} else {
+			e.bitop(x, "bitandnot", a, b, t)
+		}
 	case token.SHL, token.SHR:
 		if _, ysigned := intBits(x.Y.Type()); ysigned {
 			if _, isC := x.Y.(*ssa.Const); !isC {
@@ -1585,8 +1595,8 @@ func (e *Enc) bitop(x *ssa.BinOp, fn string, a, b Val, t types.Type) {
 	switch fn {
 	case "bitand":
 		e.assert(implies(nn, and(app(">=", r.T, "0"), app("<=", r.T, a.T), app("<=", r.T, b.T))))
-		if bits, signed := intBits(t); bits <= 8 && !signed {
-			// byte-sized operands: masking with a single bit (flag tests such as f&shf == shf with shf a power of two)
+		if bits, signed := intBits(t); bits <= 32 && !signed {
+			// small unsigned operands: masking with a single bit (flag tests such as f&shf == shf with shf a power of two)
 			for k := uint(0); k < bits; k++ {
 				p2 := pow2(k).String()
 				e.assert(implies(app("=", b.T, p2), app("=", r.T, app("*", p2, app("mod", app("div", a.T, p2), "2")))))
